@@ -115,7 +115,8 @@ type World struct {
 
 	rows     map[string][]byte // stored rows as last read through the verification connection
 	accepted map[int][]acceptedRaw
-	held     map[int]*sth // reference model: the head held per log, in commit order
+	cosigned map[string]string // (size,ts,root) -> first log+signature seen cosigned (reach probe only)
+	held     map[int]*sth      // reference model: the head held per log, in commit order
 	hist     map[int][]histEnt
 	known    map[string]*sth
 	signed   map[string]*signedHead
@@ -142,6 +143,7 @@ func (w *World) Init(s *kernel.Sim) {
 	w.byParty = map[string]*op{}
 	w.rows = map[string][]byte{}
 	w.accepted = map[int][]acceptedRaw{}
+	w.cosigned = map[string]string{}
 	w.held = map[int]*sth{}
 	w.hist = map[int][]histEnt{}
 	w.known = map[string]*sth{}
@@ -182,9 +184,17 @@ func (w *World) Init(s *kernel.Sim) {
 		np++
 		return k
 	}
+	mirrors := p.NLogs >= 2 && t.Chance(1, 4)
 	for i := 0; i < p.NLogs; i++ {
 		l := newLog(i, fmt.Sprintf("L%d", i), pick(4))
-		genTrees(t, l)
+		if mirrors && i == 1 {
+			// mirror logs: L1 publishes the same tree family as L0 with the same
+			// timestamps, signed with its own key
+			l.trees, l.mirror, w.logs[0].mirror = w.logs[0].trees, w.logs[0], l
+			s.Probe("mirror.run")
+		} else {
+			genTrees(t, l)
+		}
 		w.logs = append(w.logs, l)
 		w.logByID[l.idB64] = l
 	}
@@ -214,7 +224,11 @@ func (w *World) Init(s *kernel.Sim) {
 		for _, tr := range l.trees {
 			ts = append(ts, fmt.Sprintf("%s:%d(fork@%d)", tr.name, tr.size(), tr.forkAt))
 		}
-		s.Logf("  %s key=%s trees=%s", l.name, l.key.Kind, strings.Join(ts, " "))
+		m := ""
+		if l.mirror != nil {
+			m = " mirror-of=" + l.mirror.name
+		}
+		s.Logf("  %s key=%s trees=%s%s", l.name, l.key.Kind, strings.Join(ts, " "), m)
 	}
 }
 
@@ -291,18 +305,32 @@ func (w *World) pickExtension(l *logSpec, believed *sth) (*tree, int) {
 		if t.Chance(1, 4) {
 			bt = l.trees[t.Intn(len(l.trees))]
 		}
+		if m := w.mirrorHeld(l); m != nil && m.Size > 0 && onTree(bt, m.Size, m.Root) && t.Chance(1, 2) {
+			return bt, int(m.Size)
+		}
 		if t.Chance(1, 4) {
 			return bt, t.Range(1, bt.size())
 		}
 		return bt, t.Range(1, min(4, bt.size())) // mostly start small, so that histories get long
 	}
 	if b := int(believed.Size); b < bt.size() {
+		if m := w.mirrorHeld(l); m != nil && int(m.Size) > b && onTree(bt, m.Size, m.Root) && t.Chance(1, 2) {
+			return bt, int(m.Size) // catch up with the mirror: the same tree head under another key
+		}
 		if t.Chance(1, 4) {
 			return bt, t.Range(b+1, bt.size())
 		}
 		return bt, t.Range(b+1, min(b+3, bt.size()))
 	}
 	return bt, bt.size()
+}
+
+// mirrorHeld is what the mirror of l holds now (nil: no mirror, or nothing held).
+func (w *World) mirrorHeld(l *logSpec) *sth {
+	if l.mirror == nil {
+		return nil
+	}
+	return w.held[l.mirror.idx]
 }
 
 func (w *World) newOp() *op {
@@ -422,14 +450,18 @@ func (w *World) drawUpdate(o *op) {
 		}
 	}
 	embed := t.Chance(1, 2)
+	issue := 0 // the log may have signed the same tree head more than once
+	if t.Chance(1, 6) {
+		issue = 100 * t.Range(1, 2)
+	}
 	c := o.Cand
 	switch o.CandKind {
 	case "extend":
 		bt, n := w.pickExtension(l, believed)
-		c = w.honestHead(l, bt, n, 0, embed)
+		c = w.honestHead(l, bt, n, issue, embed)
 	case "any":
 		bt := l.trees[t.Intn(len(l.trees))]
-		c = w.honestHead(l, bt, bt.size()-t.Intn(bt.size()+1), 0, embed)
+		c = w.honestHead(l, bt, bt.size()-t.Intn(bt.size()+1), issue, embed)
 	case "fork": // split view: a head of another tree of this log, not smaller than what is believed held
 		bt := l.trees[t.Intn(len(l.trees))]
 		if on := treeOf(l, believed); on != nil && len(l.trees) > 1 {
@@ -441,7 +473,7 @@ func (w *World) drawUpdate(o *op) {
 		if believed != nil && int(believed.Size) <= bt.size() {
 			lo = int(believed.Size)
 		}
-		c = w.honestHead(l, bt, t.Range(lo, bt.size()), 0, embed)
+		c = w.honestHead(l, bt, t.Range(lo, bt.size()), issue, embed)
 	case "stale":
 		if bt := treeOf(l, believed); bt != nil && believed.Size > 0 {
 			c = w.honestHead(l, bt, int(believed.Size)-1-t.Intn(int(believed.Size)), 0, embed)
@@ -458,6 +490,8 @@ func (w *World) drawUpdate(o *op) {
 		case t.Chance(1, 3): // same size and root, re-signed with another timestamp
 			c = w.honestHead(l, treeOf(l, cur), int(cur.Size), 7, embed)
 			c.desc += "(re-signed)"
+		case t.Chance(1, 3): // the very same tree head (size, timestamp, root), signed again
+			c = w.honestHead(l, treeOf(l, cur), int(cur.Size), int(cur.TS%1000)+100*t.Range(1, 2), embed)
 		default:
 			c = w.mkCand(fmt.Sprintf("%s/held@%d", l.name, cur.Size), append([]byte(nil), raw...), l, treeOf(l, cur), int(cur.Size))
 		}
